@@ -6,6 +6,7 @@ package vgirpc
 import (
 	"encoding/json"
 	"fmt"
+	"reflect"
 	"runtime"
 )
 
@@ -156,6 +157,24 @@ type stackFrame struct {
 	File     string `json:"file"`
 	Line     int    `json:"line"`
 	Function string `json:"function"`
+}
+
+// reportableError returns err itself when it can be formatted for the wire,
+// and a RuntimeError describing it otherwise. A nil pointer stored in an error
+// interface (`var e *RpcError; return e`) or an error whose Error method
+// panics reaches the error writers after every handler recover has returned;
+// formatting it there would take the dispatcher down without a response.
+func reportableError(err error) (out error) {
+	defer func() {
+		if rv := recover(); rv != nil {
+			out = &RpcError{Type: "RuntimeError", Message: fmt.Sprintf("handler returned an error that cannot be formatted: %v", rv)}
+		}
+	}()
+	if rv := reflect.ValueOf(err); rv.Kind() == reflect.Pointer && rv.IsNil() {
+		return &RpcError{Type: "RuntimeError", Message: "handler returned a nil pointer as its error"}
+	}
+	_ = err.Error()
+	return err
 }
 
 // errorExtra is the JSON structure written to vgi_rpc.log_extra
